@@ -52,3 +52,48 @@ impl GetSeeds for RawSeeds {
         self.0.iter().map(|s| s.as_slice()).collect()
     }
 }
+
+/// Derived account sets that cache BOTH a funder and a recipient through the derive-generated
+/// validation (`#[validate(funder)]` / `#[validate(recipient)]`), in both declaration orders, with
+/// each of the four cached cleanup arguments on the target.
+pub mod sets {
+    use super::Zc16;
+    use star_frame::{
+        account_set::account::{CloseAccount, NormalizeRent, ReceiveRent, RefundRent},
+        prelude::*,
+    };
+    macro_rules! fr_set {
+        ($name:ident, $arg:expr) => {
+            #[derive(AccountSet, Debug)]
+            pub struct $name {
+                #[validate(funder)]
+                pub funder: Signer<Mut<AccountInfo>>,
+                #[validate(recipient)]
+                pub recipient: Mut<AccountInfo>,
+                #[cleanup(arg = $arg)]
+                pub target: Account<Zc16>,
+            }
+        };
+    }
+    macro_rules! rf_set {
+        ($name:ident, $arg:expr) => {
+            #[derive(AccountSet, Debug)]
+            pub struct $name {
+                #[validate(recipient)]
+                pub recipient: Mut<AccountInfo>,
+                #[validate(funder)]
+                pub funder: Signer<Mut<AccountInfo>>,
+                #[cleanup(arg = $arg)]
+                pub target: Account<Zc16>,
+            }
+        };
+    }
+    fr_set!(FrNormalize, NormalizeRent(()));
+    fr_set!(FrRefund, RefundRent(()));
+    fr_set!(FrReceive, ReceiveRent(()));
+    fr_set!(FrClose, CloseAccount(()));
+    rf_set!(RfNormalize, NormalizeRent(()));
+    rf_set!(RfRefund, RefundRent(()));
+    rf_set!(RfReceive, ReceiveRent(()));
+    rf_set!(RfClose, CloseAccount(()));
+}
